@@ -80,6 +80,7 @@ class Sched:
         self.fine_files = ("subscription.py", "server.py")
         self.fine_server_factor = 0.25      # server.py has many more (mostly thread-local) lines than subscription.py
         self.fine_focus = None              # function names to concentrate the preemptions on (see extract.changed_functions)
+        self.wake_due = False               # also offer threads whose deadline has been reached while others are enabled
         self.fine_focus_p = 0.7
 
     def tracer(self, frame, event, arg):
@@ -157,6 +158,28 @@ class Sched:
                 return "until"
             en = self.enabled()
             timed = None
+            if self.wake_due and en:
+                # threads whose deadline has been reached are as ready as the enabled ones (simultaneous events: every order)
+                due = [t for t in self.threads.values() if not t.done and t.deadline is not None and t.deadline <= self.clock
+                       and t not in en]
+                if due:
+                    pick = self.chooser([t.name for t in en + due], {t.name: t.op for t in en + due})
+                    if pick is None:
+                        return "stopped"
+                    t = self.threads[pick]
+                    if t in due:
+                        t.timed_out = True
+                        timed = t
+                    self.events = []
+                    op = t.op
+                    t.baton.release()
+                    self.ctl.acquire()
+                    chunk = {"tid": t.name, "op": op, "timeout": bool(timed is t), "enabled": sorted(x.name for x in en + due), "events": self.events,
+                             "clock": self.clock, "next": None if t.done else t.op, "done": t.done}
+                    if self.snapshot is not None:
+                        chunk["snap"] = self.snapshot()
+                    self.chunks.append(chunk)
+                    continue
             if not en:
                 waiting = [t for t in self.threads.values() if not t.done and t.deadline is not None]
                 if not waiting:
